@@ -31,10 +31,11 @@ def timed_impl(impl, line):
     def onalarm(signum, frame):
         raise CallTimeout()
     old = signal.signal(signal.SIGALRM, onalarm)
-    signal.setitimer(signal.ITIMER_REAL, LINE_LIMIT_S)
+    signal.setitimer(signal.ITIMER_REAL, call_limit(LINE_LIMIT_S))
     try:
         return impl(line)
     except CallTimeout:
+        TIMEOUTS["seen"] += 1
         return "!Timeout"
     finally:
         signal.setitimer(signal.ITIMER_REAL, 0)
